@@ -8,7 +8,8 @@ SPECIAL_A = [[list(b'BLK? #15ab'), []],            # announces a 5-byte block, i
              [list(b'PART?;PART?\n')],             # two unfinished block results
              [list(b'SYST:SUB:A;B?;ECHO @\n')],    # fails midway after relative headers
              [list(b'ECHO? 1,2,3\n')],             # parameters left unread
-             [list(b'ECHO?'), []]]                 # incomplete unit, flushed
+             [list(b'ECHO?'), []],                 # incomplete unit, flushed
+             [list(b'SENS:VOLT:AC:R\n')]]         # runs the second of two overlapping table entries
 
 def run(pid, tier):
     rep = lib.Report('C09', tier)
@@ -22,8 +23,8 @@ def run(pid, tier):
     base = pool[0]
     na, nb = (60, 45) if tier == 'quick' else (250, 160)
     As = [[m] for m in rng.sample(msgs, min(na, len(msgs)))] + SPECIAL_A
-    rel = [m for m in msgs if bytes(m).startswith((b'B?', b'ECHO? 2', b'PART?', b'TXT?', b'NONE?'))]
-    Bs = rng.sample(msgs, min(nb, len(msgs))) + rel[:18]
+    rel = [m for m in msgs if bytes(m).startswith((b'B?', b'ECHO? 2', b'PART?', b'TXT?', b'NONE?', b'SENS'))]
+    Bs = rng.sample(msgs, min(nb, len(msgs))) + [m for m in rel if bytes(m).startswith(b'SENS')][:6] + rel[:18]
     scen, refidx = [], []
     alone = {}
     for b in Bs:
